@@ -395,8 +395,9 @@ def evaluate(inputs, mask=None, variant="plain"):
             idx.append(i)
     # shard the driver over cores for big runs
     verdicts = [None] * len(normal)
-    if len(normal) > 4000:
-        k = min(NCPU, 8)
+    if len(normal) > 4000 or (len(normal) > 24 and sum(len(x) for x in normal) > 400_000):
+        # many cases, or few but big ones (stress tier): shard the driver over the cores
+        k = min(NCPU, 8) if len(normal) > 4000 else min(NCPU, max(2, len(normal) // 3))
         size = (len(normal) + k - 1) // k
         procs = []
         for s in range(0, len(normal), size):
@@ -652,7 +653,10 @@ def main():
         while time.time() - ts < budget_s and found is None:
             k += 1
             extra = gen_inputs(pid, seed + 7919 * k, "stress" if k == 1 else "thorough")
-            for mask in (masks if len(masks) > 1 else [None]):
+            search_masks = [None] if len(masks) <= 1 else sorted(masks, key=lambda m_: (m_ not in (3, 16), m_ or 0))
+            for mask in search_masks:
+                if time.time() - ts > budget_s and mask is not search_masks[0]:
+                    break
                 rs = evaluate(extra, mask)
                 hit = next((r for r in rs if r["status"] == "PROPFAIL" or
                             (r["status"] == "KNOWN" and r["detail"].split(" ", 1)[0] not in kf)), None)
